@@ -54,10 +54,10 @@ _KQ = dict(engine="kq", driver="kqrun", trace_spec="KqueueTrace", mc=["MC_Kq"],
                         "directory tree, NOTE_* raised per operation as FreeBSD's vop_*_post hooks do, all notes of one operation raised atomically",
                         "the simulation is calibrated against the repository's recorded kqueue expectations (testdata); behaviour of a real BSD kernel is not observed",
                         "quiescence is detected from goroutine states and the simulator's pending-knote count"])
-PLANS["C17"] = dict(_KQ, quick=[("kqdir", 250, ""), ("kqsym", 60, ""), ("kqcycle", 6, "n=100"), ("kqburst", 20, "")],
-                    thorough=[("kqdir", 6000, ""), ("kqsym", 1500, ""), ("kqcycle", 30, "n=1000"), ("kqburst", 300, "")])
-PLANS["C18"] = dict(_KQ, quick=[("kqdir", 300, ""), ("kqsym", 60, ""), ("kqburst", 40, "")],
-                    thorough=[("kqdir", 8000, ""), ("kqsym", 1500, ""), ("kqburst", 600, "")])
+PLANS["C17"] = dict(_KQ, quick=[("kqdir", 250, ""), ("kqsym", 60, ""), ("kqcycle", 6, "n=100"), ("kqburst", 20, ""), ("kqfault", 30, ""), ("kqnested", 40, "")],
+                    thorough=[("kqdir", 6000, ""), ("kqsym", 1500, ""), ("kqcycle", 30, "n=1000"), ("kqburst", 300, ""), ("kqfault", 400, ""), ("kqnested", 1000, "")])
+PLANS["C18"] = dict(_KQ, quick=[("kqdir", 300, ""), ("kqsym", 60, ""), ("kqburst", 40, ""), ("kqnested", 60, "")],
+                    thorough=[("kqdir", 8000, ""), ("kqsym", 1500, ""), ("kqburst", 600, ""), ("kqnested", 1500, "")])
 PLANS["C15"] = dict(engine="ops")
 PLANS["C16"] = dict(engine="ops")
 PLANS["C20"] = dict(engine="diff")
